@@ -440,3 +440,13 @@ func (h *History) Dump() string {
 	b, _ := json.Marshal(out)
 	return string(b)
 }
+
+// RawCodec returns the []byte pass-through codec used by the rig (for checks
+// that drive their own client).
+func RawCodec() interface {
+	Marshal(v any) ([]byte, error)
+	Unmarshal(data []byte, v any) error
+	Name() string
+} {
+	return rawCodec{}
+}
